@@ -1419,6 +1419,11 @@ func toAbsoluteName(name, origin string) (absolute string, ok bool) {
 	if origin == "" {
 		return "", false
 	}
+
+	// the completed name must respect the 255 octet limit as well
+	if _, ok := IsDomainName(appendOrigin(name, origin)); !ok {
+		return "", false
+	}
 	return appendOrigin(name, origin), true
 }
 
